@@ -205,6 +205,7 @@ class Check:
     def run_driver(self, drv, args, timeout=600, stdin=None, env=None, check=True):
         e = dict(os.environ, VERIF_SEED=str(self.seed), VERIF_TIER=self.tier, VERIF_REPO=REPO)
         e.update(env or {})
+        e.update(getattr(self, "force_env", None) or {})
         try:
             r = subprocess.run([drv] + [str(a) for a in args], capture_output=True, text=True, timeout=timeout, input=stdin, env=e)
         except subprocess.TimeoutExpired as ex:
@@ -369,7 +370,17 @@ class Check:
             if seen[k] > per_class or confirmed >= total:
                 continue
             confirmed += 1
-            if not confirm(idx, t):
+            ok = confirm(idx, t)
+            if not ok:
+                # drivers run their seeded `record` streams with the library's logger at trace level and everything else at the
+                # default level (ev.Quiet): a mismatch seen there may need that configuration - confirm once more under it
+                self.force_env = {"VERIF_LOGTRACE": "1"}
+                try:
+                    ok = confirm(idx, t)
+                finally:
+                    self.force_env = {}
+                if ok: obj = dict(obj, needs="library logger at trace level (logger.GetLogger().SetLevel(logrus.TraceLevel)); the drivers honour VERIF_LOGTRACE=1") if isinstance(obj, dict) else obj
+            if not ok:
                 self.note("mismatch %s/%s at event %d not reproduced in a fresh process (ignored)" % (op, cls, idx))
                 seen[k] -= 1
                 continue
